@@ -179,8 +179,12 @@ class VDT(_dt.datetime):
         return EPOCH + _dt.timedelta(seconds=cls._loop.time(), microseconds=cls._tick)
 
 
-def run_discovery(cfg, lose, hours, probe_hours=()):
+def run_discovery(cfg, lose, hours, probe_hours=(), first_sync=None):
     """Start a Gateway (discovery enabled, no schema) against the scripted controller; returns observations.
+
+    first_sync=None: the controller's id is handed to the gateway (an otherwise empty schema entry).  first_sync=t: NOTHING is: the gateway learns
+    of the controller from its periodic sync announcement (I|1F09), first heard t seconds after the port opened -- the transport reports its
+    connection 50 ms after opening (as the serial transport does once the gateway has answered), so t < 0.05 falls INSIDE Gateway.start().
 
     lose(n, t, code, payload) -> "rq" (request lost: no echo of a reply), "rp" (reply lost) or None."""
     import ramses_rf.entity_base as eb  # noqa: PLC0415
@@ -204,7 +208,15 @@ def run_discovery(cfg, lose, hours, probe_hours=()):
             super().__init__(name, protocol, **kw)
             self.writes = []
             self._extra["active_gwy"] = HGI
-            self._loop.call_soon(lambda: self._make_connection(HGI))
+            if first_sync is None:
+                self._loop.call_soon(lambda: self._make_connection(HGI))
+            else:
+                self._loop.call_later(0.05, lambda: self._make_connection(HGI))
+                self._loop.call_later(first_sync, self.sync)
+
+        def sync(self):
+            self.rx(f"045  I --- {CTL} --:------ {CTL} 1F09 003 FF073F")
+            self._loop.call_later(185.5, self.sync)
 
         def _dt_now(self):
             return VDT.now()
@@ -241,7 +253,7 @@ def run_discovery(cfg, lose, hours, probe_hours=()):
 
     async def main():
         loop.set_exception_handler(lambda lp, c: errs.append((round(loop.time(), 2), repr(c.get("exception"))[:120])))
-        gwy = Gateway("/dev/mem", config={"disable_discovery": False, "enforce_known_list": False}, **{CTL: {}})
+        gwy = Gateway("/dev/mem", config={"disable_discovery": False, "enforce_known_list": False}, **({CTL: {}} if first_sync is None else {}))
         await gwy.start()
         t = 0.0
         snaps = []
